@@ -146,6 +146,7 @@ static void rational(vt::Rng& r, int reps) {
     for (int d = -3; d <= 3; ++d) { cs.push_back(k * den + d); cs.push_back(-k * den + d); cs.push_back(k * den / num + d); cs.push_back(-(k * den / num) + d); }
   for (int i = 0; i < reps; ++i) { cs.push_back(r.range(-2000000000LL, 2000000000LL)); cs.push_back(-(vt::i128)(r.next() % 1000000)); }
   for (vt::i128 c128 : cs) {
+    if (c128 > std::numeric_limits<Rep>::max() || c128 < std::numeric_limits<Rep>::min()) continue;
     const TPD tp = TPD() + D((Rep)c128);
     int ub, ub2, ub3;
     civil_second a, b;
